@@ -638,6 +638,12 @@ func TestC16Upload(t *testing.T) {
 		if leak != "" {
 			rt.Fatalf("goroutines left behind: %s", leak)
 		}
+		if d := sim.PoolDuplicate(); d != "" {
+			// (depends on the state of a process-wide pool: rapid cannot replay it
+			// and says "flaky"; the text goes to the output as well)
+			fmt.Printf("after the case: %s\n", d)
+			rt.Fatalf("after the case: %s", d)
+		}
 		var l []string
 		for k := range labels {
 			l = append(l, k)
